@@ -1321,6 +1321,43 @@ def m_bytes(x=b"", *a):
     return SymBytes(cells)
 
 
+def m_bytes_fromhex(string):
+    """bytes.fromhex: pairs of hexadecimal digits, ASCII whitespace between the pairs is skipped; anything else -> ValueError"""
+    u = unwrap(string)
+    if isinstance(u, str):
+        return bytes.fromhex(u)
+    if not isinstance(u, SymStr):
+        raise TypeError("fromhex() argument must be str")
+    from .models_str import hexval
+
+    cells = u.cells
+    out = []
+    i = 0
+
+    def ws(c):
+        if isinstance(c, int):
+            return c in (9, 10, 11, 12, 13, 32)
+        return truth(mkbool(z3.Or(*[c == k for k in (9, 10, 11, 12, 13, 32)])))
+
+    while i < len(cells):
+        if ws(cells[i]):
+            i += 1
+            continue
+        if i + 1 >= len(cells):
+            raise ValueError("non-hexadecimal number found in fromhex() arg")
+        ok1, v1 = hexval(cells[i])
+        ok2, v2 = hexval(cells[i + 1])
+        if not (truth(mkbool(ok1) if not isinstance(ok1, bool) else ok1) and truth(mkbool(ok2) if not isinstance(ok2, bool) else ok2)):
+            raise ValueError("non-hexadecimal number found in fromhex() arg")
+        b = binop("+", binop("*", v1, 16), v2)
+        out.append(b if isinstance(b, int) else z3.simplify(z3.Extract(7, 0, b.e)))
+        i += 2
+    return unwrap(SymBytes(out))
+
+
+m_bytes_fromhex.__symx_model__ = True
+
+
 def m_ord(c):
     if isinstance(c, SymStr):
         if len(c.cells) != 1:
@@ -1578,6 +1615,7 @@ def compare(op, a, b):
 
 
 SHIM_TO_BUILTIN.update({m_bytes: bytes, IntShim: int, m_bool: bool, m_list: list, m_tuple: tuple})
+m_bytes.fromhex = m_bytes_fromhex
 
 
 def to_native(v, depth=0):
